@@ -5,6 +5,8 @@ package hashgraph
 // No-op twins of the simulation hooks (see zz_sim_verif.go). They compile to
 // nothing when the "verif" build tag is off.
 
+func simProbe(name string, v int) {}
+
 func simEventBody(b *EventBody) {}
 
 func simOrderSigs(sigs []BlockSignature) {}
